@@ -355,5 +355,5 @@ MANIFEST = {
     "text": "translation validation: for every generated program the split output was checked against its input (runs in place, single operand per side, complete duplicate-free operand product, other fields equal, unsplit entries untouched); thousands (quick) / 80 000 (thorough) programs at four levels (Ace, AceGroup, Acl, Acl.platform='nxos')",
     "note": "trusted: lib/refsem.py; KNOWN FINDING neq-multiport-split: 'neq a b' is split into 'neq a','neq b' whose union is every port - pinned by the existing tests, reported as KNOWN-FINDING, all other aspects stay enforced",
 }
-MANIFEST["engine"] += " + atheris (coverage-guided twins of the Hypothesis sub-checks, fuzz/fuzz_hyp.py: 2 jobs x 8 s quick, 8 jobs x 200 s thorough)"
+MANIFEST["engine"] = MANIFEST.get("engine", "hypothesis") + " + atheris (coverage-guided twins of the Hypothesis sub-checks, fuzz/fuzz_hyp.py: 2 jobs x 8 s quick, 8 jobs x 200 s thorough)"
 MANIFEST["technique"] += "; plus coverage-guided fuzzing of the same strategies (atheris/libFuzzer mutates the byte stream Hypothesis decodes into cases, the same oracle runs inside the target, findings are re-judged outside it)"
